@@ -58,6 +58,9 @@ func (r *poolRun) run() {
 	if r.spec.Flood {
 		r.opFlood(r.spec.Chains[0])
 	}
+	if r.spec.LongPark {
+		r.opLongPark(r.spec.Chains[0])
+	}
 	for step := 0; step < r.spec.Steps && r.c.BlockErr == nil && r.res.Inconclusive == ""; step++ {
 		cn := r.spec.Chains[r.rng.IntN(len(r.spec.Chains))]
 		if r.stuck[cn] {
@@ -300,7 +303,10 @@ func (r *poolRun) afterObservation(cn, op string, before snap) {
 			want = append(want, r.callRefundDeltas(cn, cr)...)
 		}
 	}
+	// (C05: a call settled by refund pays exactly its tokens to its refund address)
+	r.settlesByRefund = len(want) > 0
 	r.expectDeltas(op, before, want)
+	r.settlesByRefund = false
 	r.sync(cn, op, observeAllow...)
 }
 
@@ -1002,6 +1008,67 @@ func sortedChains(m map[string]string) []string {
 	}
 	sort.Strings(out)
 	return out
+}
+
+// opLongPark: a deposit is observed and nobody executes it while more than a hundred later events of that
+// chain are observed and executed (the attestation of the deposit is pruned meanwhile); then it is executed.
+func (r *poolRun) opLongPark(cn string) {
+	b := r.bridge(cn)
+	var t *fix.WToken
+	for _, x := range r.tokensOn(cn) {
+		if x.Kind == fix.KindModule {
+			t = x
+		}
+	}
+	if t == nil {
+		return
+	}
+	u, v := r.users[0], r.users[1%len(r.users)]
+	big1 := sdkmath.NewInt(int64(50_000 + r.rng.IntN(50_000)))
+	n0, h0 := b.NextEvent()
+	before := r.snapshot()
+	if !r.quorum(cn, b.SendToFxClaim(n0, h0, t.Ext[cn], big1, u.Hex(), u.Acc(), ""), "long-parked deposit") {
+		return
+	}
+	r.afterObservation(cn, fmt.Sprintf("deposit-observed %s n=%d (left unexecuted)", t.Symbol, n0), before)
+	k := int(crosschaintypes.MaxKeepEventSize) + 3 + r.rng.IntN(6)
+	for i := 0; i < k; i++ {
+		n, h := b.NextEvent()
+		before = r.snapshot()
+		one := sdkmath.NewInt(int64(1 + i%3))
+		if !r.quorum(cn, b.SendToFxClaim(n, h, t.Ext[cn], one, v.Hex(), v.Acc(), ""), "filler deposit") {
+			return
+		}
+		r.afterObservation(cn, fmt.Sprintf("deposit-observed %s n=%d (filler %d/%d)", t.Symbol, n, i+1, k), before)
+		before = r.snapshot()
+		op := fmt.Sprintf("deposit-execute %s %s to %s (filler %d/%d)", cn, one, v.Label, i+1, k)
+		if er := b.ExecuteClaim(r.c.Users[3], n); er.Failed() {
+			r.expectDeltas(op+" -> "+short(er.VmError()), before, nil)
+		} else {
+			r.res.Count("deposits_executed", 1)
+			r.deposited[t.Base] = r.deposited[t.Base].Add(one)
+			r.liq(cn, t.Base, one)
+			r.expectDeltas(op, before, []delta{{t.Base, v.Label, one}})
+		}
+		r.sync(cn, op)
+	}
+	before = r.snapshot()
+	er := b.ExecuteClaim(r.c.Users[3], n0)
+	op := fmt.Sprintf("deposit-execute %s %s to %s, observed %d events ago -> %s", cn, big1, u.Label, k, short(er.VmError()))
+	r.logf(op)
+	r.res.Count("long_parked_deposits", 1)
+	if er.Failed() {
+		if r.c04 {
+			r.res.Violate("C04/observed-deposit-lost", "%s: a deposit that a quorum observed can no longer be executed", op)
+		}
+		r.expectDeltas(op, before, nil)
+	} else {
+		r.res.Count("deposits_executed", 1)
+		r.deposited[t.Base] = r.deposited[t.Base].Add(big1)
+		r.liq(cn, t.Base, big1)
+		r.expectDeltas(op, before, []delta{{t.Base, u.Label, big1}})
+	}
+	r.sync(cn, op)
 }
 
 // opFlood: more transfers of one token wait in the pool than one batch can take; then a batch is requested.
